@@ -1192,6 +1192,7 @@ class Color(object):
                 return v1 + (v2 - v1) * ((2.0 / 3.0) - vh) * 6.0
             return v1
 
+        h = h % 1.0  # hue is taken modulo a full turn
         if s == 0.0:
             r = 255.0 * l
             g = 255.0 * l
@@ -1982,10 +1983,11 @@ class Color(object):
     def hsl(self, value):
         if not isinstance(value, (tuple, list)):
             return
-        h = value[0]
+        h = Angle.degrees(value[0]).as_turns  # hue is read and written in degrees
         s = value[1]
         l = value[2]
-        self.value = Color.hsl_to_int(h, s, l, 1.0)
+        opacity = 1.0 if self.value is None else self.alpha / 255.0
+        self.value = Color.hsl_to_int(h, s, l, opacity)
 
     def distance_to(self, other):
         return Color.distance(self, other)
